@@ -16,6 +16,7 @@ EXPLANATION = (
     "rotation of 0..max); (OWN) the children are plain by-value fields of the race future, so the losers are dropped by drop glue "
     "together with it and nothing else holds them; (EXT) FutureExt::race builds (self, other).")
 EXPLANATION += (' (CTOR) the entry point stores every operand, converted by into_future only, as the child of its own position.')
+EXPLANATION += (' (SCAN, helpers) the utils::pin accessors used to reach child i are the standard slice / Vec accessors re-pinned element-wise. (EXT, surface) no inherent method shadows `race`; no body takes a by-value combinator apart.')
 ASSUMPTIONS = [
     "which of several simultaneously ready children is seen first is the scan order (unspecified by the property)",
     "drop glue drops every by-value field exactly once (language guarantee)",
